@@ -153,20 +153,29 @@ fn main() {
         let mut stream_single = Vec::new();
         let mut rng_twin = rng.clone();
         let mut names: Vec<Vec<u8>> = Vec::new();
+        // bytes sent AFTER something that makes the server close the connection (protocol error, QUIT, buffer limit) can
+        // be unread when it closes: TCP then answers RST and replies the client has not read yet may be discarded.
+        // Two thirds of the closing items are therefore the last bytes of the stream (exact comparison); the others
+        // are followed by more commands and flagged rst_possible (prefix comparison).
+        let mut rst_possible = false;
+        let mut closed = false;
         for _ in 0..ncmd {
-            let c2 = if rng_twin.chance(1, 40) {
-                match rng_twin.below(4) { 0 => b"!oops\r\n".to_vec(), 1 => b":12x\r\n".to_vec(), 2 => b"$536870913\r\n".to_vec(), _ => b"*1\r\n$2\r\n\xff\xfe\r\n".to_vec() }
-            } else if rng_twin.chance(1, 30) {
-                array(&[bulk(if rng_twin.chance(1, 2) { b"QUIT" } else { b"quit" })])
-            } else { gen_command(&mut rng_twin, case + 1_000_000) };
+            let errs: [&[u8]; 4] = [b"!", b":12x\r\n", b"$536870913\r\n", b"*1\r\n$2\r\n\xff\xfe\r\n"];
+            let c2 = if rng_twin.chance(1, 40) { errs[rng_twin.below(4) as usize].to_vec() }
+            else if rng_twin.chance(1, 30) { array(&[bulk(if rng_twin.chance(1, 2) { b"QUIT" } else { b"quit" })]) }
+            else { gen_command(&mut rng_twin, case + 1_000_000) };
             stream_single.extend_from_slice(&c2);
-            let c = if rng.chance(1, 40) {
-                // a protocol error: the connection is closed at this point
-                match rng.below(4) { 0 => b"!oops\r\n".to_vec(), 1 => b":12x\r\n".to_vec(), 2 => b"$536870913\r\n".to_vec(), _ => b"*1\r\n$2\r\n\xff\xfe\r\n".to_vec() }
-            } else if rng.chance(1, 30) {
-                array(&[bulk(if rng.chance(1, 2) { b"QUIT" } else { b"quit" })])
-            } else { gen_command(&mut rng, case) };
+            let mut closing = false;
+            let c = if rng.chance(1, 40) { closing = true; errs[rng.below(4) as usize].to_vec() }
+            else if rng.chance(1, 30) { closing = true; array(&[bulk(if rng.chance(1, 2) { b"QUIT" } else { b"quit" })]) }
+            else { gen_command(&mut rng, case) };
             stream.extend_from_slice(&c);
+            if closed { rst_possible = true; }
+            if closing {
+                closed = true;
+                let stop = rng.chance(2, 3); let _ = rng_twin.chance(2, 3);
+                if stop { break; }
+            }
         }
         // frames around the 64 KiB buffer limit followed by more pipelined commands, cut at / next to the frame boundary
         let near_cap = case % 16 == 3 || rng.chance(1, 40);
@@ -189,9 +198,10 @@ fn main() {
             let mut ch = vec![stream[..cut].to_vec()];
             if cut < stream.len() { ch.push(stream[cut..].to_vec()); }
             forced_chunks = Some(ch);
+            rst_possible = true;
         }
         // optionally leave the last frame incomplete
-        if !near_cap && rng.chance(1, 8) && stream.len() > 2 { let cut = rng.below(3) as usize + 1; stream.truncate(stream.len() - cut.min(stream.len() - 1)); stream_single.truncate(stream_single.len() - cut.min(stream_single.len() - 1)); }
+        if !near_cap && !closed && rng.chance(1, 8) && stream.len() > 2 { let cut = rng.below(3) as usize + 1; stream.truncate(stream.len() - cut.min(stream.len() - 1)); stream_single.truncate(stream_single.len() - cut.min(stream_single.len() - 1)); }
         let chunks = match forced_chunks { Some(c) => c, None => split(&mut rng, &stream) };
         let before = snap(&metrics);
         let (reply, wf) = run_conn(port, &chunks, if chunks.len() > 400 { 0 } else { 300 });
@@ -222,7 +232,7 @@ fn main() {
             }
         }
         let sizes: Vec<String> = chunks.iter().map(|c| c.len().to_string()).collect();
-        println!("{{\"case\":{case},\"stream\":{},\"sizes\":[{}],\"reply\":{},\"reply_single\":{},\"write_failed\":{wf},\"delta\":[{}],\"upper\":[{}]}}",
+        println!("{{\"case\":{case},\"rst_possible\":{rst_possible},\"stream\":{},\"sizes\":[{}],\"reply\":{},\"reply_single\":{},\"write_failed\":{wf},\"delta\":[{}],\"upper\":[{}]}}",
             bytes_json(&stream), sizes.join(","), bytes_json(&reply), bytes_json(&reply_single), delta.join(","), uppers.join(","));
     }
     std::process::exit(0);
